@@ -299,3 +299,34 @@ class UpdateFromNodeList(_UpdateFromNode):
     doc = ('update_from_node of list-valued element properties: whenever the reader returns a list - including the empty '
            'list for XML without such elements - the member is replaced by it, so entries of an earlier content never '
            'survive a re-read')
+
+
+# The attribute / text round-trip contracts above assume the converter lemma to_py(to_xml(v)) == v.  For the converters
+# whose code is within the encoding (time stamps under the IEEE-754 error model, integers, booleans) the lemma itself is
+# proved in contracts/C18.py; those proofs are re-checked under this property so that a converter regression is
+# reported here as well.
+from contracts import C18 as _c18   # noqa: E402
+
+
+@register
+class TimestampLemmaXml(_c18.TimestampXmlPyXml):
+    id = 'C05.converter_lemma.timestamp_xml_py_xml'
+    prop = 'C05'
+
+
+@register
+class TimestampLemmaPy(_c18.TimestampPyXmlPy):
+    id = 'C05.converter_lemma.timestamp_py_xml_py'
+    prop = 'C05'
+
+
+@register
+class IntegerLemma(_c18.IntegerRoundTrip):
+    id = 'C05.converter_lemma.integer'
+    prop = 'C05'
+
+
+@register
+class BooleanLemma(_c18.BooleanRoundTrip):
+    id = 'C05.converter_lemma.boolean'
+    prop = 'C05'
